@@ -293,6 +293,7 @@ func c11Replay(e *core.Env, data json.RawMessage) (bool, string) {
 func init() {
 	core.Register(&core.Check{
 		ID: "C11", Level: "model_checking", Run: c11Run, Replay: c11Replay,
+		Added:       "windows around the ends of 2020, 2021, 2024; spans of centuries; command level: 15 daily bookings of 2^i CHF through `balance` for every --from/--to pair x interval x --last x --diff, also with the local time zone east and west of UTC",
 		QuickBudget: 80 * time.Second, ThoroughBudget: 12 * time.Minute,
 		Rule: "every (start,end) pair of days of the calendar windows x 6 intervals x last in {0,1,2,3,50}; " +
 			"each configuration is a state, each Align/Contains probe a transition; non-trivial = more than one period",
